@@ -18,7 +18,7 @@ SPEC.update({
                   "clause follows from C01_holds over the whole multi-member history. window_counterexample_unserialised "
                   "shows (by decide) the violation of the pinned tree that fix F1 (window mutex) removes; the lock facts "
                   "are re-extracted from the source on every run. Tied to the code as C01.",
-    "level_note": "As C01. Known finding F14 (open): a SetTSO whose save commits but reports an error leaves the cached "
+    "level_note": "As C01. Known finding F16 (open): a SetTSO whose save commits but reports an error leaves the cached "
                   "bound stale and a later update lowers the stored window (stored_window_counterexample_errAfter + corpus "
                   "witness on the real code); excluded from the theorem by Op.faithful.",
     "technique": "Lean 4 inductive invariant (window invariant over save history) + gated-transaction correspondence + verified monitor",
